@@ -447,22 +447,34 @@ ghost fl_statErr Int
 ghost fl_listErr Int
 ghost fl_iterErr Int
 ghost fl_resumed Bool
+ghost fl_maxErr Int
+
+// Highest TXID held by the replica at any level (used to validate a follower's saved TXID).
+func litestream.(*Replica).maxTXID(r, ctx) (txid, err)
+  requires r != nil
+  modifies $alloc, it_idx
+  ensures [C16.replica-max] err == nil ==> (forall lv int, k int :: {replFile(old(r.Client), lv, k)} 0 <= lv && lv <= 9 && 0 <= k && k < replN(old(r.Client), lv) ==> fmax(replFile(old(r.Client), lv, k)) <= txid)
+  ensures (forall i int :: {it_idx[i]} old(allocated(i)) ==> it_idx[i] == old(it_idx[i]))
+  loop 0 invariant r == old(r) && r.Client == old(r.Client) && 0 <= level && level <= 10
+  loop 0 invariant (forall lv int, k int :: {replFile(r.Client, lv, k)} 0 <= lv && lv < level && 0 <= k && k < replN(r.Client, lv) ==> fmax(replFile(r.Client, lv, k)) <= maxTXID)
+  loop 0 invariant (forall i int :: {it_idx[i]} old(allocated(i)) ==> it_idx[i] == old(it_idx[i]))
 pred reachableTXID(cl int, t int) = exists lv int, k int :: {replFile(cl, lv, k)} 0 <= lv && lv <= 9 && 0 <= k && k < replN(cl, lv) && fmax(replFile(cl, lv, k)) >= t
 
 func litestream.(*Replica).Restore(r, ctx, opt) (err)
-  requires r != nil && r.Client != nil && opt.TXID < 9223372036854775807 && !txf_renamed && !fl_resumed
+  requires r != nil && r.Client != nil && opt.TXID < 9223372036854775807 && !txf_renamed && !fl_resumed && fl_maxErr == nil
   at os.Stat#1 set fl_statErr = $result1
   at litestream.ReadTXIDFile#1 set fl_saved = $result0
   at litestream.ReadTXIDFile#1 set fl_readErr = $result1
   at litestream.ReplicaClient.LTXFiles#1 set fl_listErr = $result1
   at ltx.FileIterator.Err#1 set fl_iterErr = $result0
+  at litestream.(*Replica).maxTXID#1 set fl_maxErr = $result1
   at litestream.(*Replica).follow#1 assert [C16.resume-from-sidecar] $arg1 == opt.OutputPath && $arg2 == fl_saved && fl_saved > 0 && fl_readErr == nil
   at litestream.(*Replica).follow#1 set fl_resumed = true
-  ensures [C16.resume] opt.Follow && opt.OutputPath != "" && opt.TXID == 0 && isZero(opt.Timestamp) && (opt.IntegrityCheck == 0 || opt.IntegrityCheck == 1 || opt.IntegrityCheck == 2) && fl_statErr == nil && fl_readErr == nil && fl_saved > 0 && fl_listErr == nil && fl_iterErr == nil && reachableTXID(old(r.Client), fl_saved) ==> fl_resumed
+  ensures [C16.resume] opt.Follow && opt.OutputPath != "" && opt.TXID == 0 && isZero(opt.Timestamp) && (opt.IntegrityCheck == 0 || opt.IntegrityCheck == 1 || opt.IntegrityCheck == 2) && fl_statErr == nil && fl_readErr == nil && fl_saved > 0 && fl_listErr == nil && fl_iterErr == nil && fl_maxErr == nil && reachableTXID(old(r.Client), fl_saved) ==> fl_resumed
   loop 0 invariant snapshotItr != nil && itOK(snapshotItr) && it_client[snapshotItr] == old(r.Client) && it_level[snapshotItr] == 9 && wfLevel(old(r.Client), 9) && r == old(r)
   loop 0 invariant latestSnapshot == nil || (exists k int :: {item(snapshotItr, k)} 0 <= k && k < it_idx[snapshotItr] && latestSnapshot == item(snapshotItr, k))
   requires !pub_renamed && !c10_statAbsent && !c10_removed && c10_integrityErr == nil && c10_decodeErr == nil && c10_syncErr == nil && c10_closeErr == nil && c10_planErr == nil && c10_dlErr == nil && c10_applyErr == nil && v3_opened == 0
-  modifies $heap, $alloc, it_idx, file_written, path_synced, path_handle, file_closed, flock_held, fl_decClosed, fl_cur, fl_saved, fl_readErr, fl_statErr, fl_listErr, fl_iterErr, fl_resumed, pub_dst, pub_renamed, txf_dst, txf_renamed, c10_statAbsent, c10_decodeErr, c10_syncErr, c10_closeErr, c10_integrityErr, c10_ctxErr, c10_removed, c10_planErr, c10_dlErr, c10_applyErr, arb_v3U, arb_ltxU, arb_v3S, arb_v3SCreated, arb_ltxS, arb_ltxSCreated, v3_opened, v3_walIndex
+  modifies $heap, $alloc, it_idx, file_written, path_synced, path_handle, file_closed, flock_held, fl_decClosed, fl_cur, fl_saved, fl_readErr, fl_statErr, fl_listErr, fl_iterErr, fl_maxErr, fl_resumed, pub_dst, pub_renamed, txf_dst, txf_renamed, c10_statAbsent, c10_decodeErr, c10_syncErr, c10_closeErr, c10_integrityErr, c10_ctxErr, c10_removed, c10_planErr, c10_dlErr, c10_applyErr, arb_v3U, arb_ltxU, arb_v3S, arb_v3SCreated, arb_ltxS, arb_ltxSCreated, v3_opened, v3_walIndex
   at os.Stat#2 set c10_statAbsent = isNotExist($result1)
   at litestream.CalcRestorePlan#1 set c10_planErr = $result1
   at os.Create#all assert [C03.tmp-only] hasSuffix($arg0, ".tmp") && $arg0 == tmpOutputPath && tmpOutputPath == concat(opt.OutputPath, ".tmp")
@@ -568,8 +580,11 @@ func litestream.(*Replica).MaxLTXFileInfo(r, ctx, level) (info, err)
   requires r != nil
   modifies $alloc, it_idx
   ensures [C05.calcpos-max] err == nil ==> info.MaxTXID < 9223372036854775807
+  ensures [C16.level-max] err == nil ==> (forall k int :: {replFile(old(r.Client), level, k)} 0 <= k && k < replN(old(r.Client), level) ==> fmax(replFile(old(r.Client), level, k)) <= info.MaxTXID)
+  ensures (forall i int :: {it_idx[i]} old(allocated(i)) ==> it_idx[i] == old(it_idx[i]))
   loop 0 invariant itr != nil && itOK(itr) && it_client[itr] == r.Client && it_level[itr] == level && r.Client == old(r.Client) && wfLevel(r.Client, level)
   loop 0 invariant info.MaxTXID < 9223372036854775807 && (forall k int :: {item(itr, k)} 0 <= k && k < it_idx[itr] ==> fmax(item(itr, k)) <= info.MaxTXID)
+  loop 0 invariant fresh(itr) && (forall i int :: {it_idx[i]} old(allocated(i)) ==> it_idx[i] == old(it_idx[i]))
 
 func litestream.(*Replica).calcPos(r, ctx) (pos, err)
   requires r != nil
